@@ -55,4 +55,5 @@ def oracle(H):
     return oracles.c06(H)
 
 
+SWEEP = (6, 100)
 install(globals(), ID, 3000, 40000)
